@@ -1,10 +1,10 @@
 package harness
 
 import (
+	"encoding/binary"
 	"encoding/json"
 	"fmt"
 	"os"
-	"sort"
 	"strconv"
 	"testing"
 	"time"
@@ -213,6 +213,7 @@ func TestWorker(t *testing.T) {
 		os.Exit(2)
 	}
 	simrt.Deactivate()
+	CleanupScratch()
 }
 
 func workerSearch(t *testing.T, p *Property, tier string, enc *json.Encoder) {
@@ -224,7 +225,7 @@ func workerSearch(t *testing.T, p *Property, tier string, enc *json.Encoder) {
 	maxViol := envInt("SIM_MAX_VIOL", 12)
 	start := time.Now()
 	st := &Stats{Faults: map[string]int{}, Probes: map[string]int{}, Strategies: map[string]int{}, Reasons: map[string]int{}}
-	sigs := map[string]bool{}
+	var sigs []uint64
 	classes := map[string]int{}
 	pairs := map[string]bool{}
 	for i := idx; i < runs; i += nw {
@@ -262,7 +263,9 @@ func workerSearch(t *testing.T, p *Property, tier string, enc *json.Encoder) {
 		}
 		if out.Nontrivial {
 			st.Nontrivial++
-			sigs[out.Sig] = true
+			if v, err := strconv.ParseUint(out.Sig, 16, 64); err == nil {
+				sigs = append(sigs, v)
+			}
 		}
 		if len(st.Samples) < 2 && out.Nontrivial {
 			st.Samples = append(st.Samples, map[string]interface{}{"seed": seed, "scenario": out.Scenario, "steps": out.Steps,
@@ -277,10 +280,13 @@ func workerSearch(t *testing.T, p *Property, tier string, enc *json.Encoder) {
 			}
 		}
 	}
-	for s := range sigs {
-		st.Sigs = append(st.Sigs, s)
+	// signatures of the non-trivial runs go to a binary side file (8 bytes each); the driver
+	// merges the files of all workers and counts the distinct ones
+	buf := make([]byte, 0, 8*len(sigs))
+	for _, v := range sigs {
+		buf = binary.LittleEndian.AppendUint64(buf, v)
 	}
-	sort.Strings(st.Sigs)
+	os.WriteFile(os.Getenv("SIM_OUT")+".sigs", buf, 0o644)
 	st.Pairs = len(pairs)
 	st.WallS = time.Since(start).Seconds()
 	enc.Encode(map[string]interface{}{"type": "stats", "stats": st})
